@@ -31,6 +31,7 @@ var c07SSO = mkSpace("authn", []fieldDim{
 	{"CType", []string{"", "charset", "mixed-case", "charset-quoted"}},
 	{"HTTP", world.HTTPShapes},
 	{"Sibling", world.SiblingKinds},
+	{"Dirty", []string{"", "failed-writes"}},
 	{"Optional", []string{"", "all"}},
 	{"Frac", []string{"", "0", "3", "9"}},
 	{"Relay", []string{"", "none", "spacey"}},
@@ -155,6 +156,7 @@ var c07Logout = mkSpace("logout", []fieldDim{
 	{"Wire", []string{"", "b64-76", "b64-64crlf", "ctype-charset", "flate-stored", "flate-flushed", "flate-chunks"}},
 	{"HTTP", world.HTTPShapes},
 	{"Sibling", world.SiblingKinds},
+	{"Dirty", []string{"", "failed-writes"}},
 	{"Session", []string{"", "two"}},
 	{"Relay", []string{"", "none"}},
 	{"NOOA", []string{"", "+1us", "+1y", "max", "y2262-", "y2262+", "y2300", "y3000"}},
@@ -197,6 +199,7 @@ var c07AQ = mkSpace("attribute-query", []fieldDim{
 	{"Lex", lexVals},
 	{"HTTP", world.HTTPShapes},
 	{"Sibling", world.SiblingKinds},
+	{"Dirty", []string{"", "failed-writes"}},
 	{"CType", []string{"", "text-xml-bare", "soap12", "soapaction"}},
 	{"Dest", []string{"", "absent"}},
 	{"Subject", []string{"", "bob"}},
